@@ -109,11 +109,14 @@ def run(ctx, config="all", ops=None):
         b = next((x for x in prog.fn_bodies() if x["name"] == "saturating_from" and x["file"] == "src/from.rs"), None)
         if b is not None:
             n += 1
-            v = prog.view(b, (65, 2))
             where = "%s:%s" % (b["file"], b["line"])
-            # find the switch on the error discriminant and the constant each arm yields
+            # find the switch on the error discriminant and the constant each arm yields -- in the body itself
+            # (`match Self::try_from(x) { Err(ValueTooLarge(..)) => ..}`) or in a closure handed to unwrap_or_else /
+            # map_err / or_else (`.unwrap_or_else(|e| match e { .. })`)
             arm = {}
-            for bi in sorted(v.reachable):
+            views = [prog.view(b, (65, 2))] + [prog.view(k, (65, 2)) for k in sorted(prog.bodies)
+                                               if k.startswith(b["key"] + "::{closure")]
+            for v, bi in ((vv, bb) for vv in views for bb in sorted(vv.reachable)):
                 t = v.blocks[bi]["term"]
                 if t["t"] != "switch":
                     continue
@@ -121,7 +124,9 @@ def run(ctx, config="all", ops=None):
                 if not (c and c[0] == "rv" and c[1]["r"] == "discr"):
                     continue
                 pl = c[1]["pl"]
-                if not any(isinstance(e, list) and e[0] == "dc" and e[2] == "Err" for e in pl["p"]):
+                in_closure = v.body["kind"] == "Closure"
+                err_ty = ir.ty_contains(v.local_ty(pl["l"]), lambda t_: t_.get("k") == "adt" and t_.get("n", "").endswith("ToUintError"))
+                if not (any(isinstance(e, list) and e[0] == "dc" and e[2] == "Err" for e in pl["p"]) or (in_closure and err_ty)):
                     continue
                 for val, tb in t["targets"] + [[None, t["otherwise"]]]:
                     consts = set()
